@@ -63,6 +63,19 @@ def interesting(nodes):
     s += 2 * any(o in ('LoopSum', 'LoopConcat') for o in ops)
     s += len(set(ops) & {'Inflate', 'Take', 'TakeDiag', 'Diagonalize', 'Ravel', 'Unravel', 'Transpose', 'InsertAxis', 'Choose', 'Power', 'Sum', 'Multiply', 'Add'})
     s += len({tuple(n['d']) for n in nodes if n['d']}) > 2
+    # extended vocabulary (none of these occurs in base programs): prefer the shapes that the rewrite / codegen rules act on
+    for n in nodes:
+        op = n['op']
+        if op == 'Einsum' and any(nodes[d - 1]['op'] in ('Transpose', 'InsertAxis') for d in n['d']):
+            s += 4
+        elif op == 'SearchSorted':
+            s += 2 * (n['p'][0] == 1) + (len(n['d']) == 3)
+        elif op == 'LoopConcat' and n['p'][2] == 0:
+            s += 4
+        elif op in ('LoopSumN', 'PolyGrad', 'PolyMul', 'UniqueInverse', 'Monomial'):
+            s += 2
+        elif op in ('Real', 'Imag', 'Conjugate') and nodes[n['d'][0] - 1]['op'] in ('FloatToComplex', 'Multiply', 'Add'):
+            s += 2
     return s
 
 
@@ -273,8 +286,15 @@ EXT_FAMILIES = {
     'search': dict(Ops='{"SearchSorted","ArgSort","UniqueMask","UniqueInverse","SizesToOffsets","CompressIndices","Find","Take","BoolToInt","Sum","InsertAxis","Unravel","Multiply","Add","LoopConcat"}',
                    LeafSet='{4, 5, 13, 15, 16, 17, 20, 21, 22, 24, 27, 37, 38, 39}', MaxOps=5, MaxNodes=9, MaxLeaves=4),
     # loop dependent axis lengths (element dependent block sizes)
-    'dyn': dict(Ops='{"RangeN","InsertAxisN","LoopConcat","LoopSum","Take","Inflate","Multiply","Add","IntToFloat","Sum","Negative","InsertAxis","Diagonalize","Power"}',
-                LeafSet='{1, 4, 8, 13, 22, 23, 39}', MaxOps=5, MaxNodes=9, MaxLeaves=4),
+    'dyn': dict(Ops='{"MacroLenTab","RangeN","InsertAxisN","LoopConcat","LoopSum","Take","Inflate","Multiply","Add","IntToFloat","Sum","Negative","InsertAxis","Diagonalize","Power"}',
+                LeafSet='{1, 4, 8, 13}', MaxOps=5, MaxNodes=9, MaxLeaves=4),
+    # loop whose number of iterations is an integer argument (InRange(a14, n)): programs whose only argument dependence
+    # may be the loop length
+    'arglen': dict(Ops='{"MacroArgLoop","LoopSumN","IntToFloat","Multiply","Add","Take","InsertAxis","Inflate","Power","Sum","Diagonalize"}',
+                   LeafSet='{1, 7, 8, 13, 15, 30, 39}', MaxOps=6, MaxNodes=10, MaxLeaves=4),
+    # Monomial (sparse product helper of evaluable.factor)
+    'monomial': dict(Ops='{"Monomial","Multiply","Add","Take","Inflate","Sum","InsertAxis","Power","LoopSum"}',
+                     LeafSet='{1, 3, 4, 7, 8, 13, 15, 22, 24, 30, 39}', MaxOps=4, MaxNodes=8, MaxLeaves=4),
 }
 EXT_MARK = {
     'cx': lambda p: any(n['dt'] == 'c' for n in p),
@@ -282,6 +302,8 @@ EXT_MARK = {
     'poly': lambda p: any(n['op'] in ('PolyMul', 'PolyGrad', 'PolyDegree', 'PolyNCoeffs', 'Legendre') or n['op'] == 'Polyval' and p[n['d'][1] - 1]['sh'][-1:] == [2] for n in p),
     'search': lambda p: any(n['op'] in ('SearchSorted', 'ArgSort', 'UniqueMask', 'UniqueInverse', 'SizesToOffsets', 'CompressIndices', 'Find') for n in p),
     'dyn': lambda p: any(any(x < 0 for x in n['sh']) for n in p),
+    'arglen': lambda p: any(n['op'] == 'LoopSumN' for n in p),
+    'monomial': lambda p: any(n['op'] == 'Monomial' for n in p),
 }
 
 
